@@ -42,6 +42,8 @@ func TestVerifC11BlockedWriter(t *testing.T) {
 	}
 	var wg sync.WaitGroup
 	var mu sync.Mutex
+	type failure struct{ sig, detail string }
+	var failures []failure // reported from the test goroutine after all variants have finished
 	for i, v := range vs {
 		if i%nsh != sh {
 			continue
@@ -117,7 +119,7 @@ func TestVerifC11BlockedWriter(t *testing.T) {
 				close(release)
 				mu.Lock()
 				rec.Eval()
-				rec.Fail(t, "deadlock", fmt.Sprintf("%s | session with a peer whose writer is blocked in send, %d other peers, leave via %s", stuck, v.others, v.how))
+				failures = append(failures, failure{"deadlock", fmt.Sprintf("%s | session with a peer whose writer is blocked in send, %d other peers, leave via %s", stuck, v.others, v.how)})
 				mu.Unlock()
 				return
 			}
@@ -142,11 +144,11 @@ func TestVerifC11BlockedWriter(t *testing.T) {
 			}
 			desc := fmt.Sprintf("session with a peer whose writer is blocked in send (%d messages queued), %d other peers, leave via %s, blocked peer leaves last=%v", v.messages, v.others, v.how, v.lastOut)
 			if a || b {
-				rec.Fail(t, "routing-state-leak", fmt.Sprintf("every connection has left but the hub still holds state for the session (sessions entry: %v, byPeerID entry: %v) | %s", a, b, desc))
+				failures = append(failures, failure{"routing-state-leak", fmt.Sprintf("every connection has left but the hub still holds state for the session (sessions entry: %v, byPeerID entry: %v) | %s", a, b, desc)})
 				return
 			}
 			if len(h.List(ses)) != 0 {
-				rec.Fail(t, "left-peer-still-listed", desc)
+				failures = append(failures, failure{"left-peer-still-listed", desc})
 				return
 			}
 			rec.NonTrivial(fmt.Sprintf("%+v", v))
@@ -156,6 +158,11 @@ func TestVerifC11BlockedWriter(t *testing.T) {
 		}(i, v)
 	}
 	wg.Wait()
+	for _, f := range failures {
+		if !rec.Fail(t, f.sig, f.detail) {
+			return
+		}
+	}
 }
 
 // ---- C11 (stress): real concurrency, no scheduler ----------------------------------------------
